@@ -45,12 +45,13 @@ class _Continue(Exception):
 
 class Ptr:
     """pointer into a NUL-terminated byte string (tuple of ints ending in 0)"""
-    __slots__ = ("buf", "off", "log")
+    __slots__ = ("buf", "off", "log", "writes")
 
     def __init__(self, buf, off=0, log=None):
         self.buf = buf
         self.off = off
         self.log = log if log is not None else []
+        self.writes = None
 
     def read(self, i):
         j = self.off + i
@@ -60,7 +61,19 @@ class Ptr:
         return self.buf[j]
 
     def add(self, n):
-        return Ptr(self.buf, self.off + n, self.log)
+        p = Ptr(self.buf, self.off + n, self.log)
+        p.writes = getattr(self, "writes", None)
+        return p
+
+    def write(self, i, v):
+        """a store through the pointer: bounds-checked against the string's block (terminator
+        included) and recorded; the contents are not changed"""
+        j = self.off + i
+        if j < 0 or j >= len(self.buf):
+            raise OverRead(j, len(self.buf))
+        w = getattr(self, "writes", None)
+        if w is not None:
+            w.append((j, v))
 
     def __eq__(self, o):
         return isinstance(o, Ptr) and o.buf is self.buf and o.off == self.off
@@ -490,6 +503,8 @@ class Interp:
                 b[i] = val
                 nm = lv["base"].get("name") or lv["base"].get("field")
                 self.counters[nm] = max(self.counters.get(nm, -1), i)
+            elif isinstance(b, Ptr) and isinstance(i, int) and getattr(b, "writes", None) is not None:
+                b.write(i, val)
         elif lv["k"] == "member":
             b = self.expr(f, lv["base"], env, depth)
             if isinstance(b, dict):
